@@ -42,7 +42,7 @@ QuickFams == <<
   Fam(Pairs,    Plain,  TRUE,  RawCols) >>                \* contents as loaded
 ThoroughFams == <<
   Fam(Pairs,    Plain,  FALSE, Cols(Univ, 0, 2)),
-  Fam(Pairs,    Plain,  FALSE, Cols(Sub6, 3, 3)),
+  Fam(Pairs,    Plain,  FALSE, Cols(Sub4, 3, 3)),
   Fam(RefPairs, Linked, FALSE, Cols(RefSub, 0, 2)),
   Fam(Pairs,    Plain,  TRUE,  Cols(Univ, 1, 1) \cup Cols(Sub4, 2, 2)) >>
 
